@@ -64,6 +64,40 @@ def run_impl(pred, ref, metric, thr, m2o):
     return [(float(s), int(r), int(p)) for s, (r, p) in pairs], lmap, order
 
 
+def reported_assignment(pred, ref, metric, thr, m2o, lmap):
+    """the assignment as a caller sees it: in the pair returned by match_instances() a prediction carries a reference's label
+    exactly if the label map assigns it to that reference; unassigned predictions carry labels no reference uses, one each"""
+    m = NaiveThresholdMatching(matching_metric=impl.METRICS[metric], matching_threshold=thr[0] / thr[1], allow_many_to_one=m2o)
+    try:
+        with quiet():
+            mp = m.match_instances(UnmatchedInstancePair(pred.copy(), ref.copy()))
+    except Exception as e:
+        return f"match_instances raised {type(e).__name__}"
+    out_p, out_r = np.asarray(mp.prediction_arr), np.asarray(mp.reference_arr)
+    if out_p.shape != pred.shape or not np.array_equal(out_r.astype(np.int64), ref.astype(np.int64)):
+        return "match_instances changed the reference map"
+    if np.any((out_p != 0) != (pred != 0)):
+        return "match_instances changed the prediction foreground"
+    rl = set(int(x) for x in np.unique(ref) if x)
+    fresh = {}
+    for p_ in (int(x) for x in np.unique(pred) if x):
+        new = np.unique(out_p[pred == p_])
+        if len(new) != 1:
+            return f"prediction {p_} comes back with several labels {new.tolist()}"
+        n = int(new[0])
+        if p_ in lmap:
+            if n != lmap[p_]:
+                return f"prediction {p_} is assigned to reference {lmap[p_]} but comes back labelled {n}"
+        elif n in rl:
+            return (f"prediction {p_} is not assigned to any reference but comes back carrying the label of reference {n} "
+                    f"(reported as matched to it)")
+        elif n in fresh:
+            return f"unassigned predictions {fresh[n]} and {p_} come back with the same label {n}"
+        else:
+            fresh[n] = p_
+    return None
+
+
 def one_case(ctx, pred, ref, metric, thr, m2o, src, check_monotone=True):
     inp = {"shape": list(pred.shape), "pred": gen.arr_json(pred), "ref": gen.arr_json(ref), "metric": metric,
            "thr": list(thr), "m2o": m2o, "src": src}
@@ -93,6 +127,10 @@ def one_case(ctx, pred, ref, metric, thr, m2o, src, check_monotone=True):
     if fails and not fragile:
         ctx.violation("matching violates C03: " + fails[0], inp, impl={"lmap": lmap, "cands": pairs},
                       key={"kind": "invalid-matching"})
+    elif pred.size <= 4096:
+        bad = reported_assignment(pred, ref, metric, thr, m2o, lmap)
+        if bad:
+            ctx.violation("matching violates C03: " + bad, inp, impl={"lmap": lmap}, key={"kind": "reported-assignment"})
     # monotonicity (metamorphic pair): a stricter threshold only removes matches
     if check_monotone and not fragile:
         grid = GRID[metric]
